@@ -102,6 +102,8 @@ Json Config::to_json() const
     j.set("table_api", table_api);
     if (twice)
         j.set("twice", true);
+    if (dir_slash)
+        j.set("dir_slash", true);
     j.set("profile", profile);
     Json g = Json::object();
     g.set("long_labels", gf.long_labels);
@@ -127,6 +129,7 @@ Config Config::from_json(const Json& j)
     c.checks = (uint32_t)j.geti("checks", CK_ALL);
     c.table_api = j.getb("table_api", false);
     c.twice = j.getb("twice", false);
+    c.dir_slash = j.getb("dir_slash", false);
     c.profile = j.gets("profile");
     if (auto* g = j.find("gen"))
     {
@@ -431,7 +434,7 @@ void World::open_library()
     }
     Outcome o = call(FaultSpec{}, [&] {
         if (plan.cfg.on_disk)
-            db = eng::create_database(dir, schema);
+            db = eng::create_database(api_dir(), schema);
         else
             db = eng::create_temporary_database(schema);
     });
@@ -483,7 +486,7 @@ bool World::reload()
         loaded = schema;
     }
     Outcome o = (plan.cfg.table_api && v2 && tstate) ? Outcome{} : call(FaultSpec{}, [&] {
-        db = eng::load_database(dir, loaded);
+        db = eng::load_database(api_dir(), loaded);
         set_marker = true;
     });
     if (o.threw)
